@@ -12,7 +12,7 @@ ASSUME = [common.TRUSTED, "IP-literal grammar = dotted quad / RFC 4291 section 2
           "decimal port = [+-]?[0-9]+ with value 1..65535; canonical form = shortest decimal"]
 META = {
     "level": "model_checking",
-    "technique": "IP-literal and decimal-port grammars in TLA+ (Net.tla) model-checked over all strings up to 5-6 characters of a 10/8-symbol alphabet; TLC-computed option maps replayed through constructor and parser paths; accessor outcomes validated by TLC",
+    "technique": "IP-literal and decimal-port grammars in TLA+ (Net.tla) model-checked over all strings up to 5-6 characters of a 10/8-symbol alphabet; TLC-computed option maps replayed through constructor and parser paths; accessor outcomes validated by TLC; the struct behind a pointer field as an editable place",
     "text": ("Host() may succeed only on strings the TLA+ grammar classifies as IP literals and must return the literal's numeric value; "
              "HasValidHost/HasValidPort must coincide with Host()/Port() success on every input; Port() only on decimal 1..65535 and in canonical "
              "form; IPVersion must match the literal's family; GetOption must be an exact-key lookup; StaticKey/IV succeed exactly for 32/16 "
